@@ -5,7 +5,7 @@
 // inplace_stop_token and a manual scheduler; scripted external events drive it.  The same case lines
 // go to the Lean machine (`ask coro run | <case>`), outputs must be equal token for token.
 //
-//   case <id> | <inl|man> | <prog> | <leaf specs> | <events>
+//   case <id> | <inl|man>[:u|:w] | <prog> | <leaf specs> | <events>
 //
 //   prog   := ( stmt* )
 //   stmt   := (aw I)      acc += co_await leaf I
@@ -16,13 +16,16 @@
 //             (ret V)     co_return acc + V
 //             (thr E)     throw Err{E}
 //             (sir)       co_await stop_if_requested()
+//             (rs K)      co_await schedule(scheduler K)      (the task moves to scheduler K; source/task.cpp)
 //   specs  := I=i:O | I=ia:O | I=p:ign | I=p:O | I=pa:ign | I=pa:O    O := vN | eN | d
 //             i = completes inside start(), p = stays pending (O = how it completes when it gets a
 //             stop notification, ign = ignores it); a = the sender declares is_always_scheduler_affine
 //             (otherwise task<> wraps it: finally(leaf, unstoppable(schedule(sched))) — a hop)
 //   events := start | stop | run | cI:O | c?:O   run = the manual scheduler executes its oldest item;
 //             c?:O completes whatever leaf is pending (a cleanup leaf always with v0)
-//   inl|man: the root receiver's scheduler completes schedule() inline / queues it until `run`
+//   inl|man: the schedulers complete schedule() inline / queue it until `run` (one FIFO for all of them);
+//            :u the receiver has no stop token (task<> connects without the stop-request thunk; `stop` events
+//            do nothing), :w its stop token has a foreign type (adapted by inplace_stop_token_adapter)
 //
 // After the scripted events the case is drained (queued scheduler items first, then the lowest
 // pending leaf: done for a body leaf, v0 for a cleanup leaf), then the operation state is destroyed
@@ -31,6 +34,7 @@
 //   fsF body of frame F started (its tracked local constructed)     rgF:A cleanup A registered
 //   lsI:S leaf I started, S = stop already requested on its token   lpI leaf I got a stop notification
 //   ldF locals of frame F destroyed    clF:A cleanup A of frame F ran    fdF frame F destroyed
+//   sqK a schedule() operation of scheduler K was started (K = 0: the receiver's scheduler)
 //   R=vN / R=eN / R=d root receiver completed       !!… monitors
 #include <unifex/at_coroutine_exit.hpp>
 #include <unifex/inplace_stop_token.hpp>
@@ -85,19 +89,20 @@ struct World {
 
 // ---------------------------------------------------------------- manual scheduler
 struct ManualScheduler {
-  World* w;
+  World* w; int tag = 0;
   struct Sender {
     template <template <typename...> class Variant, template <typename...> class Tuple>
     using value_types = Variant<Tuple<>>;
     template <template <typename...> class Variant>
     using error_types = Variant<std::exception_ptr>;
     static constexpr bool sends_done = false;
-    World* w;
+    World* w; int tag;
     template <typename R>
     struct Op final : SchedOpBase {
-      World* w; R r;
-      Op(World* w, R&& r) : w(w), r(std::move(r)) {}
+      World* w; int tag; R r;
+      Op(World* w, int tag, R&& r) : w(w), tag(tag), r(std::move(r)) {}
       void start() noexcept {
+        w->emit("sq" + std::to_string(tag));
         if (w->inlineSched) unifex::set_value(std::move(r));
         else w->queue.push_back(this);
       }
@@ -105,12 +110,12 @@ struct ManualScheduler {
     };
     template <typename R>
     friend Op<remove_cvref_t<R>> tag_invoke(tag_t<connect>, Sender s, R&& r) {
-      return Op<remove_cvref_t<R>>{s.w, (R&&)r};
+      return Op<remove_cvref_t<R>>{s.w, s.tag, (R&&)r};
     }
   };
-  Sender schedule() const noexcept { return Sender{w}; }
-  friend bool operator==(const ManualScheduler& a, const ManualScheduler& b) noexcept { return a.w == b.w; }
-  friend bool operator!=(const ManualScheduler& a, const ManualScheduler& b) noexcept { return a.w != b.w; }
+  Sender schedule() const noexcept { return Sender{w, tag}; }
+  friend bool operator==(const ManualScheduler& a, const ManualScheduler& b) noexcept { return a.w == b.w && a.tag == b.tag; }
+  friend bool operator!=(const ManualScheduler& a, const ManualScheduler& b) noexcept { return !(a == b); }
 };
 
 // ---------------------------------------------------------------- manual leaf sender
@@ -270,13 +275,15 @@ static task<int> interp(World* w, std::shared_ptr<Prog> prog, FrameTag tag) {
       throw Err{s.a};
     } else if (s.k == "sir") {
       co_await stop_if_requested();
+    } else if (s.k == "rs") {
+      co_await schedule(ManualScheduler{w, s.a});
     }
   }
   co_return acc;
 }
 
-// ---------------------------------------------------------------- root receiver
-struct RootReceiver {
+// ---------------------------------------------------------------- root receivers
+struct RootBase {
   World* w; inplace_stop_source* src;
   void record(const std::string& s) {
     if (!w->started) w->emit("!!completion-before-start");
@@ -286,8 +293,31 @@ struct RootReceiver {
   void set_value(int v) noexcept { record("R=v" + std::to_string(v)); }
   void set_error(std::exception_ptr e) noexcept { record("R=e" + std::to_string(errcode(e))); }
   void set_done() noexcept { record("R=d"); }
+};
+// (default) the receiver exposes an inplace_stop_token: task<> interposes the stop-request thunk
+struct RootReceiver : RootBase {
   friend inplace_stop_token tag_invoke(tag_t<get_stop_token>, const RootReceiver& r) noexcept { return r.src->get_token(); }
-  friend ManualScheduler tag_invoke(tag_t<get_scheduler>, const RootReceiver& r) noexcept { return ManualScheduler{r.w}; }
+  friend ManualScheduler tag_invoke(tag_t<get_scheduler>, const RootReceiver& r) noexcept { return ManualScheduler{r.w, 0}; }
+};
+// `:u` the receiver has no stop token (unstoppable_token): task<> connects as sa_task, no thunk
+struct RootReceiverU : RootBase {
+  friend ManualScheduler tag_invoke(tag_t<get_scheduler>, const RootReceiverU& r) noexcept { return ManualScheduler{r.w, 0}; }
+};
+// `:w` the receiver exposes a stop token of a foreign type: the awaiter adapts it (inplace_stop_token_adapter)
+struct WrapToken {
+  inplace_stop_token t;
+  bool stop_requested() const noexcept { return t.stop_requested(); }
+  bool stop_possible() const noexcept { return t.stop_possible(); }
+  template <typename F>
+  struct callback_type {
+    typename inplace_stop_token::template callback_type<F> cb;
+    template <typename T>
+    explicit callback_type(WrapToken tok, T&& f) : cb(tok.t, (T&&)f) {}
+  };
+};
+struct RootReceiverW : RootBase {
+  friend WrapToken tag_invoke(tag_t<get_stop_token>, const RootReceiverW& r) noexcept { return WrapToken{r.src->get_token()}; }
+  friend ManualScheduler tag_invoke(tag_t<get_scheduler>, const RootReceiverW& r) noexcept { return ManualScheduler{r.w, 0}; }
 };
 
 static std::string flush(World& w) {
@@ -310,13 +340,14 @@ static void parse_outcome(const std::string& o, char& chan, int& val) {
   val = o.size() > 1 ? atoi(o.c_str() + 1) : 0;
 }
 
-static std::string run_case(const std::string& line) {
+template <typename Rcv>
+static std::string run_case_impl(const std::string& line) {
   auto parts = split(line, '|');
   if (parts.size() == 4) parts.push_back("");
   if (parts.size() < 5) return "bad-op";
   std::string id = trim(parts[0]);
   World w;
-  w.inlineSched = trim(parts[1]) != "man";
+  w.inlineSched = trim(parts[1]).rfind("man", 0) != 0;
   {
     std::stringstream ss(parts[3]); std::string tok;
     while (ss >> tok) {
@@ -338,8 +369,8 @@ static std::string run_case(const std::string& line) {
   inplace_stop_source src;
   std::string res = id;
   {
-    auto op = std::make_unique<connect_result_t<task<int>, RootReceiver>>(
-        unifex::connect(interp(&w, prog, FrameTag{&w, w.nextFrame++}), RootReceiver{&w, &src}));
+    auto op = std::make_unique<connect_result_t<task<int>, Rcv>>(
+        unifex::connect(interp(&w, prog, FrameTag{&w, w.nextFrame++}), Rcv{{&w, &src}}));
     w.out.clear();
     std::stringstream es(parts[4]); std::string ev;
     auto one = [&](const std::string& ev) {
@@ -385,6 +416,14 @@ static std::string run_case(const std::string& line) {
   for (int f = 0; f < w.nextFrame; ++f)
     if (w.frameDestroyed[f] != 1) res += " | !!frame" + std::to_string(f) + "-destroyed=" + std::to_string(w.frameDestroyed[f]);
   return res;
+}
+
+static std::string run_case(const std::string& line) {
+  auto parts = split(line, '|');
+  std::string mode = parts.size() > 1 ? trim(parts[1]) : "";
+  if (mode.size() > 2 && mode.substr(mode.size() - 2) == ":u") return run_case_impl<RootReceiverU>(line);
+  if (mode.size() > 2 && mode.substr(mode.size() - 2) == ":w") return run_case_impl<RootReceiverW>(line);
+  return run_case_impl<RootReceiver>(line);
 }
 
 int main() {
